@@ -89,8 +89,9 @@ CHECKS["C12"] = dict(
          "restores all four depths — mutual induction over transpileS / wrapLambda / transpileL / transpileLL with a context "
          "(plain / loop body / lambda body) and its depth invariant. Tie: AST correspondence of the "
          "transpiler model; the model's bplL / balancedTop verdicts on every generated program (verdict stream); depth-tuple oracle after every top-level statement of generated terminating programs, and `n` at the end.",
-    note=COMMON_NOTE + "Partial: calls are neutral because callee bodies are checked balanced (defn case, helper table) - the induction on call depth is informal; "
-         "abnormal termination is outside the property.",
+    note=COMMON_NOTE + "Calls are no longer assumed neutral: balanced_sound_calls / transpiled_program_restores_depths_calls run over an execution relation in which every statement may call - to any depth, "
+         "recursively - the functions and lambdas the code defines and the repository's helpers; those bodies are checked (defsL_ok: every def the checker reaches is accepted as a function body; helper_functions_balanced), "
+         "and the soundness induction is over the derivation, calls included (Lemmas/BalanceCalls.lean). Abnormal termination is outside the property.",
     technique="Lean 4 proof (abstract interpretation + soundness by mutual induction on derivations; translation invariance; mutual structural induction over the transpiler model; decide +kernel over regenerated templates and helper bodies); AST correspondence; depth oracle",
     ref="§5 C12")
 CHECKS["C18"] = dict(
